@@ -48,7 +48,7 @@ def run(ctx):
     b = ctx.go_test_binary("util/cacheutil", "h_cacheutil")
     if b:
         ctx.correspond(b, "TestVerifC10", "svdriver_c10", "c10",
-                       env={"VERIF_N": 3000 if quick else 100000})
+                       env={"VERIF_N": 15000 if quick else 150000})
     if not quick:
         br = ctx.go_test_binary("util/cacheutil", "h_cacheutil_race", race=True)
         if br:
